@@ -397,7 +397,12 @@ def finish(ctx, level_rule, assumptions, exhaustive=False, trusted=None):
         log("note: events also rejected under other ids (other properties are reported by their own checks; X.. ids are "
             "behaviour the specification covers beyond the listed properties - reported, never an alarm): %s" % others)
         with open(ctx.path("other-bads.json"), "w") as f:
-            json.dump([b for b in ctx.bads if b["prop"] != pid][:200], f, indent=1, default=str)
+            keep, seen = [], {}
+            for b in ctx.bads:          # up to 60 per id, so that a rare id is not crowded out by a frequent one
+                if b["prop"] != pid and seen.get(b["prop"], 0) < 60:
+                    seen[b["prop"]] = seen.get(b["prop"], 0) + 1
+                    keep.append(b)
+            json.dump(keep, f, indent=1, default=str)
     replay = None
     if violations:
         # group by normalised reason; one replay file per group (first few)
